@@ -35,7 +35,7 @@ P = {
        "requirement flag in its guard; bypass flags are closed; normal return "
        "of _check_signature is unreachable unless verified was set under a "
        "truthy verdict; no handler on the cone swallows a signature error "
-       "outside three enumerated retry idioms. Does not decide what xmlsec1 "
+       "outside three enumerated retry idioms; every assertion that is adopted, plain or decrypted, passed the signature gate (R10). Does not decide what xmlsec1 "
        "does with a concrete wrapped document.",
   ref="Part 3 C01"),
  "C02": dict(
@@ -128,9 +128,9 @@ def main():
         "notes": "All checks parse /repo (override: VERIF_REPO) on every run. "
                  "Exit 0 holds / 1 VIOLATION / 2 ANALYSIS-ERROR (fail closed). "
                  "Known findings: /verif/known_findings.json. Self-test "
-                 "variants: selftest/run.py (289); seeded breaking changes: "
-                 "seeded/ (57, all reported); behaviour-preserving refactoring "
-                 "patches: benign/ (20, all silent); tools/corpus.py re-checks "
+                 "variants: selftest/run.py (293); seeded breaking changes: "
+                 "seeded/ (76, all reported); behaviour-preserving refactoring "
+                 "patches: benign/ (30, all silent); tools/corpus.py re-checks "
                  "both.",
     }
     with open(os.path.join(VERIF, "MANIFEST.json"), "w") as fh:
